@@ -1,0 +1,9 @@
+//go:build verif
+
+// Contracts for the deductive verifier in /verif (govc). Comment-only.
+
+package accounts
+
+//@ func ValidateAddress(addr string) (r bool)
+//@   property C25 C28 C38
+//@   ensures r == validAddr(addr)
